@@ -515,6 +515,7 @@ theorem deIterate_ok {cfg : DECfg} {sp : Space} {f : Pos → Bool} (hgeo : cfg.m
         | npunif _ => simp at h
         | choice _ => simp at h
         | parents _ => simp at h
+        | inits _ => simp at h
 
 theorem de_ok (cfg : DECfg) (sp : Space) (f : Pos → Bool) (hgeo : cfg.member.geo = sp.geo) (hsp : SpaceOK sp) :
     PopOK (deBackend cfg) (fun s => s) (fun _ => True) sp f :=
